@@ -29,13 +29,14 @@ try:
     env = dict(os.environ, PYTHONPATH=f'{d}/src:{d}/tests')
     env.pop('VERIF_REPO', None)
     text = open(demo).read().replace(orig, d)
-    dd = os.path.join(d, '_demo.py'); open(dd, 'w').write(text)
+    os.makedirs(os.path.join(d, '_seedrun'), exist_ok=True)
+    dd = os.path.join(d, '_seedrun', os.path.basename(demo)); open(dd, 'w').write(text)   # keep the file name: demos trace themselves
     p = subprocess.run(['/venv/bin/python', dd], cwd=d, env=env, stdout=subprocess.PIPE, stderr=subprocess.STDOUT, text=True, timeout=600)
     res['demo_with_change_rc'] = p.returncode
     print('demo with change rc=', p.returncode, '|', p.stdout.strip().splitlines()[-1:] )
     env2 = dict(os.environ, PYTHONPATH='/repo/src:/repo/tests')
     text2 = open(demo).read().replace(orig, '/repo')
-    d2 = tempfile.mkdtemp(prefix='deepseed0-'); dd2 = os.path.join(d2, '_demo.py'); open(dd2, 'w').write(text2)
+    d2 = tempfile.mkdtemp(prefix='deepseed0-'); dd2 = os.path.join(d2, os.path.basename(demo)); open(dd2, 'w').write(text2)
     p = subprocess.run(['/venv/bin/python', dd2], cwd=d2, env=env2, stdout=subprocess.PIPE, stderr=subprocess.STDOUT, text=True, timeout=600)
     shutil.rmtree(d2, ignore_errors=True)
     res['demo_without_change_rc'] = p.returncode
